@@ -301,6 +301,7 @@ RunResult runDaemon(const Json::Value& sc, const DaemonHooks* hooks) {
   R.trace = g.trace;
   R.final_world = sim.world();
   R.inodes = sim.everInodes();
+  R.initial_xattrs = sim.initialXattrs();
   for (auto& kv : Oomd::getStats()) R.stats_after[kv.first] = kv.second;
   R.accesses = g.access_count;
   return R;
